@@ -264,7 +264,7 @@ func main() {
 		return fmt.Sprintf("udp[kind=%s,batch=%s]: %s", sp.kind, sp.batch, msg)
 	}
 	params := family(c)
-	for i, r := range harness.ExploreBatch("udp", params, harness.Pick(c, 2, 3), harness.Pick(c, 40*time.Second, 20*time.Minute), true) {
+	for i, r := range harness.ExploreBatch("udp", params, harness.Pick(c, 2, 3), harness.Pick(c, 40*time.Second, 3*time.Minute), true) {
 		if i%6 == 0 {
 			c.Sample(map[string]any{"scenario": r.Param, "executions": r.Stats.Execs, "observations": len(r.Stats.Observations), "bound": r.Stats.BoundCompleted})
 		}
